@@ -53,6 +53,11 @@ def setup_import_path() -> None:
             if not f.startswith(src):
                 del sys.modules[name]
     import nauyaca.protocol  # noqa: F401  (breaks the utils<->protocol import cycle)
+    configure_harness_logging()
+
+
+def configure_harness_logging() -> None:
+    """(re-)apply the logging configuration the checks run under"""
     try:
         import structlog
 
